@@ -62,7 +62,7 @@ def check(ctx):
                 ctx.fail("oracle", key, f"table {name} (N={N}) order {order}, no cutoff: {cnt} index tuples with equality pattern {pat} are eliminated (forced to zero)",
                          replay={"tp": tp.tolist(), "order": order, "pattern": list(pat), "count": cnt}, has_input=True)
     # ---- dense reference
-    cells = [("mono_P", (1, 1, 1)), ("tri2_P1", (1, 1, 1)), ("tri1", (2, 1, 1)), ("hcp", (1, 1, 1)), ("tri3_P1", (1, 1, 1))]
+    cells = [("mono_P", (1, 1, 1)), ("tri2_P1", (1, 1, 1)), ("tri1", (2, 1, 1)), ("hcp", (1, 1, 1)), ("tri3_P1", (1, 1, 1)), ("tri2_obtuse", (1, 1, 1))]
     if not ctx.quick:
         cells += [("bcc_conv", (1, 1, 1)), ("tri2_Pm1", (1, 1, 1)), ("ortho_C", (1, 1, 1)), ("si_prim", (1, 1, 1)), ("tri1", (3, 1, 1)), ("nacl_prim", (1, 1, 1)), ("rhombo2", (1, 1, 1)), ("sheared", (1, 1, 1)), ("mono_C", (1, 1, 1))]
     described = [make_supercell(base_cells()[cname], diag, rng=rng, shuffle=True) for cname, diag in cells]
@@ -86,6 +86,8 @@ def check(ctx):
                 if pos < len(shells):
                     cuts.append((shells[pos - 1] + shells[pos]) / 2)
             cuts.append(shells[-1] + 0.3)
+            if len(shells) >= 2 and shells[-1] - shells[-2] > 1e-2:
+                cuts.append(shells[-1] - 1e-3)      # just below the largest distance (any "the cutoff is redundant" shortcut must not fire)
         for order in (2, 3, 4):
             if order == 4 and N > 2 or order == 3 and N > 3:
                 continue
